@@ -326,12 +326,17 @@ func c03(r *core.Run) {
 		fname := core.FuncName(fn)
 		var nilStore, bcast, connClose, chClose ssa.Instruction
 		signalOnly := false
-		for _, ac := range core.FieldAccesses([]*ssa.Function{fn}, func(f core.Field) bool { return f == a.WorkQueue }) {
+		scope := p.Helpers(fn) // closeFn and the private helpers it calls
+		var scopeCalls []ssa.CallInstruction
+		for _, f2 := range scope {
+			scopeCalls = append(scopeCalls, core.Calls(f2)...)
+		}
+		for _, ac := range core.FieldAccesses(scope, func(f core.Field) bool { return f == a.WorkQueue }) {
 			if ac.Kind == "store" && storeShape(ac.Instr.(*ssa.Store).Val, a) == "nil" {
 				nilStore = ac.Instr
 			}
 		}
-		for _, c := range core.Calls(fn) {
+		for _, c := range scopeCalls {
 			switch e.lockOp(c) {
 			case "broadcast":
 				bcast = c
@@ -351,15 +356,15 @@ func c03(r *core.Run) {
 			}
 		}
 		r.Check(nilStore != nil && e.stateAt(nilStore).Only(lkHeld), "S3", fname, "workqueue=nil-under-lock", posOf(p, nilStore), "closing flag set with the queue lock Held", "closing flag (nil work queue) not set, or set without the lock")
-		r.Check(bcast != nil && nilStore != nil && core.Dominates(nilStore, bcast), "S3", fname, "Broadcast-after-nil", posOf(p, bcast), "all workers are woken after the closing flag is set", fmt.Sprintf("no Broadcast after setting the closing flag (signal-only=%v): waiting workers never observe the close", signalOnly))
-		r.Check(connClose != nil && bcast != nil && core.Dominates(bcast, connClose), "S3", fname, "Conn.Close-after-Broadcast", posOf(p, connClose), "connection closed after workers were told to stop", "connection not closed in closeFn after the broadcast")
-		r.Check(chClose != nil && connClose != nil && core.Dominates(connClose, chClose), "S3", fname, "close(inCh)-after-Conn.Close", posOf(p, chClose), "in-channel closed after the connection (no send on a closed channel by the NATS client), ending the listener loop", "in-channel not closed after Conn.Close: the listener never ends or the client sends on a closed channel")
+		r.Check(bcast != nil && nilStore != nil && p.DominatesIn(fn, nilStore, bcast), "S3", fname, "Broadcast-after-nil", posOf(p, bcast), "all workers are woken after the closing flag is set", fmt.Sprintf("no Broadcast after setting the closing flag (signal-only=%v): waiting workers never observe the close", signalOnly))
+		r.Check(connClose != nil && bcast != nil && p.DominatesIn(fn, bcast, connClose), "S3", fname, "Conn.Close-after-Broadcast", posOf(p, connClose), "connection closed after workers were told to stop", "connection not closed in closeFn after the broadcast")
+		r.Check(chClose != nil && connClose != nil && p.DominatesIn(fn, connClose, chClose), "S3", fname, "close(inCh)-after-Conn.Close", posOf(p, chClose), "in-channel closed after the connection (no send on a closed channel by the NATS client), ending the listener loop", "in-channel not closed after Conn.Close: the listener never ends or the client sends on a closed channel")
 		for _, c := range callsTo(root, fn) {
 			r.Check(c.Parent() == shutdown && !core.IsGo(c), "S3", core.FuncName(c.Parent()), "calls-closeFn", p.InstrPos(c), "closeFn called from Shutdown only", "closeFn called from outside Shutdown: the connection could be closed twice")
 		}
 		for _, c := range invokes(root, "Conn", "Close") {
 			if f, ok := core.LoadedField(c.Common().Value); ok && f == a.NC {
-				r.Check(c.Parent() == fn, "S3", core.FuncName(c.Parent()), "Conn.Close(service-connection)", p.InstrPos(c), "only closeFn closes the service connection", "the service connection is closed outside closeFn")
+				r.Check(p.Within(c.Parent(), fn) && c.Parent().Parent() == nil, "S3", core.FuncName(c.Parent()), "Conn.Close(service-connection)", p.InstrPos(c), "only closeFn closes the service connection", "the service connection is closed outside closeFn")
 			}
 		}
 	}
@@ -431,19 +436,19 @@ func c03(r *core.Run) {
 
 	// ---- N0 --------------------------------------------------------------
 	for _, fn := range root {
-		if fn == a.Serve {
-			continue
+		if fn == a.Serve || p.IsPrivateHelper(fn) {
+			continue // helpers are analysed in the context of their callers
 		}
 		var stores []*ssa.Store
-		for _, ac := range core.FieldAccesses([]*ssa.Function{fn}, func(f core.Field) bool { return f == a.WorkQueue }) {
-			if ac.Kind == "store" && storeShape(ac.Instr.(*ssa.Store).Val, a) != "nil" {
+		for _, ac := range core.FieldAccesses(p.Helpers(fn), func(f core.Field) bool { return f == a.WorkQueue }) {
+			if ac.Kind == "store" && storeShape(ac.Instr.(*ssa.Store).Val, a) != "nil" && !p.Within(ac.Fn, a.Serve) {
 				stores = append(stores, ac.Instr.(*ssa.Store))
 			}
 		}
 		if len(stores) == 0 {
 			continue
 		}
-		fl := &core.Flow{Fn: fn, Entry: core.StateSet(0).Add(0)}
+		fl := &core.Flow{Fn: fn, Entry: core.StateSet(0).Add(0), Inline: p.IsPrivateHelper}
 		fl.Transfer = func(in ssa.Instruction, s int) core.StateSet {
 			if e.isRelease(in) {
 				return core.StateSet(0).Add(0)
@@ -481,7 +486,7 @@ func c03(r *core.Run) {
 		res := fl.Run()
 		for _, st := range stores {
 			s := res.Before[st]
-			r.Check(s.Only(1), "N0", core.FuncName(fn), "store("+a.WorkQueue.String()+")="+storeShape(st.Val, a)+":queue-known-open", p.InstrPos(st),
+			r.Check(s.Only(1), "N0", core.FuncName(st.Parent()), "store("+a.WorkQueue.String()+")="+storeShape(st.Val, a)+":queue-known-open", p.InstrPos(st),
 				"the queue was observed non-nil earlier in this critical section", "a possibly closed (nil) work queue is overwritten with a non-nil value: workers that have not yet observed the close keep waiting and Shutdown/Serve hang in WaitGroup.Wait")
 		}
 	}
